@@ -60,7 +60,7 @@ HydratedOK ==
     /\ FaultIsolationFor(S, meta, fault, Ld)
     /\ RoundTripFor(S, entries, meta, fault, Ld)
 
-ModeNames == <<"deleted", "truncated", "nonjson", "unknown", "shape", "datagone">>
+ModeNames == <<"deleted", "truncated", "nonjson", "unknown", "shape", "datagone", "unopenable">>
 RECURSIVE ModesText(_)
 ModesText(i) ==
     IF i > Len(ModeNames) THEN ""
@@ -68,7 +68,7 @@ ModesText(i) ==
 Faults == IF \A c \in S : fault[c] = "none" THEN "none" ELSE ModesText(1)
 
 Feat(c) == "kind=" \o entries[c].kind \o ":" \o (IF entries[c].multi THEN "multi" ELSE "single") \o
-           ":saveas=" \o entries[c].saveas
+           ":saveas=" \o entries[c].saveas \o (IF entries[c].filtered THEN ":filtered-spec" ELSE "")
 
 Perms(n) == {f \in [1..n -> 1..n] : \A i, j \in 1..n : i # j => f[i] # f[j]}
 
